@@ -143,6 +143,16 @@ def run_history(ctx):
                     expect.append({"found": res if kind == "ok" else res, "store": after})
                     for o in q:
                         _audit(viol, "oids_exist", o, "ok" if (kind == "ok" and o in res) else "absent", before, after, local)
+            elif r < 0.91 and not read_only:
+                # an add of this object whose copy fails (the source is gone), issued as transfer() issues it (check_exists off):
+                # whatever sits at the object's path is neither protected nor vouched for
+                errs = []
+                kind, res = safe_call(lambda: odb.add(os.path.join(root, "gone"), fs, oid, check_exists=False,
+                                                      on_error=lambda o, e: errs.append(o)))
+                after = snapshot(odb)
+                trace.append(["failed_add", oid, sorted(errs) if kind == "ok" else res])
+                ops.append({"op": "add_nocheck", "oid": oid, "data": None, "local": local})
+                expect.append({"failed": sorted(errs) if kind == "ok" else res, "store": after})
             else:
                 # checkout of the directory object: a corrupt unprotected member must never be materialised
                 dest = os.path.join(root, "out%d" % step)
@@ -202,7 +212,10 @@ def run_history(ctx):
         elif o["op"] == "oids_exist":
             impl.append(e)
             model.append({"found": sorted(r["found"]), "store": model_store(r["store"])})
-    ctx.corr("Store.check/oidsExistLocal~check()/oids_exist() over a tamper history", case, impl, model)
+        elif o["op"] == "add_nocheck":
+            impl.append(e)
+            model.append({"failed": sorted(r["failed"]), "store": model_store(r["store"])})
+    ctx.corr("Store.check/oidsExistLocal/addBatch~check()/oids_exist()/add() over a tamper history", case, impl, model)
     if len(ctx.samples) < 2:
         ctx.sample(case)
 
